@@ -49,7 +49,7 @@ def zint(x):
 
 
 def zstr(x):
-    return x.z if isinstance(x, SStr) else (z3.StringVal(x) if isinstance(x, str) else x)
+    return x.z if isinstance(x, (SStr, SAny)) else (z3.StringVal(x) if isinstance(x, str) else x)
 
 
 def zb(x):
@@ -64,9 +64,13 @@ def zb(x):
 class Hier:
     """the z3 vocabulary of one symbolic class hierarchy (linearised: the MRO of `cls`)"""
 
-    def __init__(self, name="mro", min_len=1):
+    def __init__(self, name="mro", min_len=1, key_sort="str"):
+        """key_sort: "str" (z3 strings: prefix tests possible) or "atom" (uninterpreted names: equality only, much easier for
+        the solver's model finder)"""
         p = cur()
         self.name = name
+        self.key_sort = key_sort
+        S = z3.StringSort() if key_sort == "str" else U
         self.n = core.sym_int(f"len({name})")
         p.assume(self.n >= min_len)
         core.register_model_var(f"len({name})", self.n.z)
@@ -77,11 +81,8 @@ class Hier:
         self.tag_is = {}  # (KEY, cls) -> (i,t)->Bool : isinstance(getattr(val(i,t), KEY, None), cls)
         self.tag_id = {}  # KEY -> (i,t)->U : identity of the tag object
         self.val_id = _fresh(f"{name}.val", Z, Z, U)
-        i, t, t2 = z3.Ints("i t t2")
-        # python facts: namespace lengths are >= 0, keys of one dict are distinct
-        p.assume(SBool(z3.ForAll([i], self.L(i) >= 0)))
-        p.assume(SBool(z3.ForAll([i, t, t2], z3.Implies(z3.And(0 <= t, t < self.L(i), 0 <= t2, t2 < self.L(i), self.key(i, t) == self.key(i, t2)), t == t2),
-                                 patterns=[z3.MultiPattern(self.key(i, t), self.key(i, t2))])))
+        # python facts used: namespace lengths are >= 0 (assumed per instantiated class record, see `rec`).  Distinctness of
+        # the keys of one namespace is a python fact too, but no C16 proof needs it, so it is not assumed.
         self.recs = {}
         self.cls_obj = None
 
@@ -101,6 +102,7 @@ class Hier:
         k = i.z.get_id() if isinstance(i, Sym) else i
         if k not in self.recs:
             self.recs[k] = ClassRec(self, i)
+            cur().assume(SBool(self.L(zint(i)) >= 0))
         return self.recs[k]
 
     def seq(self, lo=0, hi_off=0, name=None):
@@ -220,7 +222,8 @@ class NsDict(SymDict):
     def __init__(self, hier: Hier, i: SNum):
         self.hier, self.i = hier, i
         n = SNum(hier.L(i.z))
-        keys = SymSeq(f"keys(vars(mro[{i.z}]))", n, lambda t: SStr(hier.key(i.z, zint(t))))
+        mk = SStr if hier.key_sort == "str" else (lambda z: SAny(z=z))
+        keys = SymSeq(f"keys(vars(mro[{i.z}]))", n, lambda t: mk(hier.key(i.z, zint(t))))
         super().__init__(f"vars(mro[{i.z}])", keys, None)
         self._items = {}
 
